@@ -107,6 +107,8 @@ PROPS["C11"] = {
         K("kani_int_encoders", ["u64_to_bytes_is_canon", "encode_number_u64_is_canon", "decode_encode_u64_roundtrip", "decode_encode_i64_roundtrip",
                                 "decode_number_i64_is_faithful", "decode_number_u64_is_faithful", "decode_number_i32_is_faithful"],
           True, "complete: all 2^64 inputs resp. every atom of at most 10 (6) bytes, loops bounded by operand width (unwind 11/12, unwinding assertions on)"),
+        # every integer width of the clvm-traits conversions and MatchByte at the boundaries, against the interpreter's own form
+        N("native_ints_ground", "ints_ground"),
     ],
     "assumptions": [
         "shim contracts: u64::to_be_bytes == be8, array/slice range indexing == subrange, Vec::extend == concatenation",
@@ -114,7 +116,7 @@ PROPS["C11"] = {
         "clvmr::Allocator accessor contracts (sexp/atom) over an abstract immutable tree",
     ],
     "not_covered": [
-        "clvm-traits ToClvm/FromClvm integer impls for widths other than 64 bits (macro-generated; route through encode_number/decode_number, which Kani proves at 64 bits only)",
+        "clvm-traits ToClvm/FromClvm integer impls for widths other than 64 bits (macro-generated; route through encode_number/decode_number, which Kani proves at 64 and 32 bits): decided on ground boundary values of all twelve widths and MatchByte (task ints_ground)",
         "Allocator::new_number (the interpreter's own encoder) is in the assumed shim",
     ],
 }
@@ -213,7 +215,9 @@ PROPS["C17"] = {
     "technique": "Verus contracts on the real tree_hash_atom/tree_hash_pair and the iterative tree_hash stack machine (extracted verbatim) against the recursive definition th(); tree_hash_cached with the TreeCache invariant; curry_tree_hash / curry_and_treehash against the tree hash of the curried program (unit curry); exhaustive native evaluation of the 24 precomputed small-atom hashes",
     "level_text": "Deductive proof for every allocator tree (any depth/width/sharing, since th is a function of the abstract tree): tree_hash returns sha256(1‖atom) / sha256(2‖th l‖th r) recursively, never underflows its stacks and terminates (measure 2*size). The small-atom shortcut is sound because the 24 table constants are recomputed exhaustively.",
     "level_note": "Assumed: Sha256 ghost model over an uninterpreted sha256; clvmr Allocator::node contract. tree_hash_cached with the TreeCache invariant (every memoised hash is the tree hash of its node, for any call history) is proved in unit tree_hash; curry_tree_hash and fast_forward's curry_and_treehash / curry_single_arg are proved in unit curry against the tree hash of the curried program (a (q . program) (c (q . arg) ... 1)); tree_hash_from_bytes is the composition of an assumed decoder and tree_hash_cached.",
-    "components": [V("tree_hash"), N("native_tree_hash_precomputed", "tree_hash_precomputed"), V("curry"), V("tree_hash_bytes"), N("native_tree_hash_ground", "tree_hash_ground"), N("native_curry_ground", "curry_ground")],
+    "components": [V("tree_hash"), N("native_tree_hash_precomputed", "tree_hash_precomputed"), V("curry"), V("tree_hash_bytes"), N("native_tree_hash_ground", "tree_hash_ground"), N("native_curry_ground", "curry_ground"),
+                   # the curried singleton hash fast_forward computes from hashes alone, on shipped spends incl. a non-standard launcher
+                   N("native_ff_ground", "ff_ground")],
     "assumptions": ["Sha256 ghost model, sha256 uninterpreted", "clvmr Allocator::node / atom contracts (shims/clvmr.rs)"],
     "not_covered": [
         "tree_hash_from_bytes is proved (unit tree_hash_bytes) to be the tree hash of whatever node_from_bytes_backrefs decodes, and an error exactly when that fails; the decoder itself (clvmr) is an assumed deterministic collaborator",
